@@ -16,8 +16,11 @@ import (
 	"time"
 
 	sdkmath "cosmossdk.io/math"
+	abci "github.com/cometbft/cometbft/abci/types"
+	cmtproto "github.com/cometbft/cometbft/proto/tendermint/types"
 	sdk "github.com/cosmos/cosmos-sdk/types"
 	authtypes "github.com/cosmos/cosmos-sdk/x/auth/types"
+	distr "github.com/cosmos/cosmos-sdk/x/distribution"
 	distrkeeper "github.com/cosmos/cosmos-sdk/x/distribution/keeper"
 	distrtypes "github.com/cosmos/cosmos-sdk/x/distribution/types"
 	stakingkeeper "github.com/cosmos/cosmos-sdk/x/staking/keeper"
@@ -48,11 +51,11 @@ const c11Gas = 5_000_000
 
 // c11Op is one letter of the alphabet. Everything is symbolic so that a path is self-contained JSON.
 type c11Op struct {
-	M      string `json:"m"`                // delegate undelegate redelegate withdrawReward withdrawRewards transfer delegateByActionMessage withdrawRewardsByMessage | env-reward env-time native
+	M      string `json:"m"`                // delegate undelegate redelegate withdrawReward withdrawRewards transfer delegateByActionMessage withdrawRewardsByMessage | env-reward env-fees env-block env-time native
 	Caller string `json:"caller,omitempty"` // A | B | C-call | C-deleg
 	V      string `json:"v,omitempty"`      // validator (source validator for redelegate; "all" for withdrawRewardsByMessage)
 	W      string `json:"w,omitempty"`      // destination validator (redelegate)
-	Amt    string `json:"amt,omitempty"`    // 0 | 1 | 1e18 | max | max+1
+	Amt    string `json:"amt,omitempty"`    // 0 | 1 | 1e18 | <n>e<k> | max | max+1; env-reward: "" (3e18) | odd | odd2; env-fees: a | b | u
 	To     string `json:"to,omitempty"`     // transfer receiver: self | other
 	Act    string `json:"act,omitempty"`    // Delegate | Undelegate | Redelegate (signed variant; native env step)
 	Sig    string `json:"sig,omitempty"`    // valid | wrong-signer | other-delegator | other-delegator-caller-signs | chain+1 | tampered | relay | unsigned-self
@@ -88,6 +91,7 @@ type c11World struct {
 	names     map[common.Address]string
 	viewCache map[[32]byte][]string
 	viewsRun  int
+	shapes    map[string]int // shape of the native DelegationTotalRewards answer per (state, account) the views were compared in
 	sMsg      stakingtypes.MsgServer
 	dMsg      distrtypes.MsgServer
 	sQ        stakingkeeper.Querier
@@ -120,7 +124,7 @@ func c11Coins(n *big.Int) sdk.Coins {
 // EOAs A (3e18) and B (2e18) with sequence 1 and known keys, forwarder contract C (3e18); A has delegated 1e18 to V1 and C
 // 1e18 to V2, D 1e18 to V1, A one wei to V2; one block later 3e18 of rewards were allocated to V1 and to V2.
 func c11Setup(slashed bool) *c11World {
-	cw := &c11World{slashed: slashed, A: world.NewAcct("c11-A"), B: world.NewAcct("c11-B"), viewCache: map[[32]byte][]string{}}
+	cw := &c11World{slashed: slashed, A: world.NewAcct("c11-A"), B: world.NewAcct("c11-B"), viewCache: map[[32]byte][]string{}, shapes: map[string]int{}}
 	mul := func(n int64) *big.Int { return new(big.Int).Mul(big.NewInt(n), c11E18) }
 	w := world.New(world.Config{
 		NumValidators: 3, NumWallets: 1, DeployStaking: true,
@@ -170,8 +174,8 @@ func c11Setup(slashed bool) *c11World {
 	must(err)
 	root = root.WithBlockHeight(root.BlockHeight() + 1).WithBlockTime(root.BlockTime().Add(time.Hour))
 	cw.root = root
-	must(cw.allocate(root, 0))
-	must(cw.allocate(root, 1))
+	must(cw.allocate(root, 0, ""))
+	must(cw.allocate(root, 1, ""))
 	// the root must not carry the set-up events
 	cw.root = root.WithEventManager(sdk.NewEventManager())
 	cw.names = map[common.Address]string{cw.A.Eth(): "A", cw.B.Eth(): "B", c11C: "C", c11D: "D", c11U: "U", cw.funder.Eth(): "funder"}
@@ -184,17 +188,87 @@ func c11Setup(slashed bool) *c11World {
 	return cw
 }
 
-// allocate is the environment step "the chain distributes 3e18 of fees to validator i".
-func (cw *c11World) allocate(ctx sdk.Context, i int) error {
+// c11RewardCoins is the amount of one direct reward allocation: "" = 3e18 of the bond denom (the round amount of the
+// original alphabet), "odd"/"odd2" = amounts that are no multiple of anything in sight, in two denoms.
+func c11RewardCoins(kind string) sdk.Coins {
+	n := func(s string) sdkmath.Int {
+		v, ok := sdkmath.NewIntFromString(s)
+		if !ok {
+			panic(s)
+		}
+		return v
+	}
+	switch kind {
+	case "":
+		return c11Coins(c11Reward)
+	case "odd":
+		return sdk.NewCoins(sdk.NewCoin(world.Denom, n("2718281828459045235")), sdk.NewCoin("utwo", n("1000003")))
+	case "odd2":
+		return sdk.NewCoins(sdk.NewCoin(world.Denom, n("1414213562373095049")), sdk.NewCoin("utwo", n("777777777")))
+	}
+	panic("reward kind " + kind)
+}
+
+// c11FeeCoins is what the fee collector holds when a block begins: a = both denoms, b = both denoms (other amounts),
+// u = only the denom that is not the bond denom.
+func c11FeeCoins(kind string) sdk.Coins {
+	n := func(s string) sdkmath.Int {
+		v, ok := sdkmath.NewIntFromString(s)
+		if !ok {
+			panic(s)
+		}
+		return v
+	}
+	switch kind {
+	case "a":
+		return sdk.NewCoins(sdk.NewCoin(world.Denom, n("9000000000000000011")), sdk.NewCoin("utwo", n("123456789")))
+	case "b":
+		return sdk.NewCoins(sdk.NewCoin(world.Denom, n("5141592653589793238")), sdk.NewCoin("utwo", n("31")))
+	case "u":
+		return sdk.NewCoins(sdk.NewCoin("utwo", n("999999937")))
+	}
+	panic("fee kind " + kind)
+}
+
+// allocate is the environment step "the chain distributes an amount (3e18 by default) to validator i".
+func (cw *c11World) allocate(ctx sdk.Context, i int, kind string) error {
 	app := cw.w.App
-	if err := app.BankKeeper.SendCoinsFromAccountToModule(ctx, cw.funder.Acc(), distrtypes.ModuleName, c11Coins(c11Reward)); err != nil {
+	coins := c11RewardCoins(kind)
+	if err := app.BankKeeper.SendCoinsFromAccountToModule(ctx, cw.funder.Acc(), distrtypes.ModuleName, coins); err != nil {
 		return err
 	}
 	val, err := app.StakingKeeper.Validator(ctx, cw.w.Validators[i].Val())
 	if err != nil {
 		return err
 	}
-	return app.DistrKeeper.AllocateTokensToValidator(ctx, val, sdk.NewDecCoinsFromCoins(c11Coins(c11Reward)...))
+	return app.DistrKeeper.AllocateTokensToValidator(ctx, val, sdk.NewDecCoinsFromCoins(coins...))
+}
+
+// fees is the environment step "a block ends and the next one begins with fees in the fee collector": staking
+// EndBlocker, next height (+1 h), then the real x/distribution BeginBlocker with the votes of every validator of the
+// last validator set (power as recorded by the staking module) — community tax, power fractions, truncations and all;
+// the validators' shares are fractional DecCoins in every denom the fee collector held.
+func (cw *c11World) fees(ctx sdk.Context, kind string) (sdk.Context, error) {
+	app := cw.w.App
+	ctx, err := cw.nextBlock(ctx)
+	if err != nil {
+		return ctx, err
+	}
+	if err := app.BankKeeper.SendCoinsFromAccountToModule(ctx, cw.funder.Acc(), authtypes.FeeCollectorName, c11FeeCoins(kind)); err != nil {
+		return ctx, err
+	}
+	var votes []abci.VoteInfo
+	for _, v := range cw.w.Validators {
+		p, err := app.StakingKeeper.GetLastValidatorPower(ctx, v.Val())
+		if err != nil || p <= 0 {
+			continue
+		}
+		votes = append(votes, abci.VoteInfo{Validator: abci.Validator{Address: v.Cons(), Power: p}, BlockIdFlag: cmtproto.BlockIDFlagCommit})
+	}
+	if len(votes) == 0 {
+		return ctx, fmt.Errorf("no validator has voting power")
+	}
+	return ctx, distr.BeginBlocker(ctx.WithVoteInfos(votes), app.DistrKeeper)
 }
 
 // nextBlock is the environment step "one block passes" (staking EndBlocker, next height, + 1 h): delegations made at the
@@ -297,6 +371,14 @@ func (cw *c11World) amount(parent sdk.Context, op c11Op, e common.Address) *big.
 		return max
 	case "max+1":
 		return new(big.Int).Add(max, bigOne)
+	}
+	// <n>e<k>: n·10^k
+	if i := strings.IndexByte(op.Amt, 'e'); i > 0 {
+		n, ok1 := new(big.Int).SetString(op.Amt[:i], 10)
+		k, ok2 := new(big.Int).SetString(op.Amt[i+1:], 10)
+		if ok1 && ok2 && k.IsInt64() && k.Int64() <= 30 {
+			return n.Mul(n, new(big.Int).Exp(big.NewInt(10), k, nil))
+		}
 	}
 	panic("amount " + op.Amt)
 }
@@ -648,7 +730,9 @@ func (cw *c11World) exec(parent sdk.Context, op c11Op) *c11Step {
 		ctx, _ := parent.CacheContext()
 		switch op.M {
 		case "env-reward":
-			st.EnvErr = cw.allocate(ctx, int(op.V[1]-'1'))
+			st.EnvErr = cw.allocate(ctx, int(op.V[1]-'1'), op.Amt)
+		case "env-fees":
+			ctx, st.EnvErr = cw.fees(ctx, op.Amt)
 		case "env-time":
 			ctx, st.EnvErr = cw.passTime(ctx)
 		case "env-block":
